@@ -332,31 +332,52 @@ class Report:
         return 0
 
 
+def prop_files(prop):
+    """properties/Cxx.v plus optional companion files properties/Cxx_*.v"""
+    d = os.path.join(COQ, "properties")
+    res = []
+    if os.path.isdir(d):
+        for f in sorted(os.listdir(d)):
+            if f == prop + ".v" or (f.startswith(prop + "_") and f.endswith(".v")):
+                res.append(os.path.join(d, f))
+    return res
+
+
 def proof_status(prop, coq_ok, coq_out):
-    """Inspect the build of properties/<prop>.v: obligations (theorems) and their assumptions."""
-    pfile = os.path.join(COQ, "properties", "%s.v" % prop)
+    """Inspect the build of properties/<prop>*.v: obligations (theorems) and whether they are built."""
     theorems = []
-    if os.path.exists(pfile):
-        theorems = re.findall(r"^\s*(?:Theorem|Corollary)\s+([A-Za-z0-9_']+)", open(pfile).read(), re.M)
-    vo = os.path.join(COQ, "properties", "%s.vo" % prop)
-    built = coq_ok and os.path.exists(vo) and not newer([pfile], vo)
+    built = coq_ok
+    files = prop_files(prop)
+    for pfile in files:
+        theorems += re.findall(r"^\s*(?:Theorem|Corollary)\s+([A-Za-z0-9_']+)", open(pfile).read(), re.M)
+        vo = pfile[:-2] + ".vo"
+        built = built and os.path.exists(vo) and not newer([pfile], vo)
+    if not files:
+        built = False
     return theorems, built
 
 
 def check_assumptions(prop):
-    """Re-run coqc on the property file alone to collect Print Assumptions output (cheap)."""
-    pfile = os.path.join(COQ, "properties", "%s.v" % prop)
-    if not os.path.exists(pfile):
+    """Re-run coqc on the property files alone to collect Print Assumptions output (cheap)."""
+    files = prop_files(prop)
+    if not files:
         return None, ""
-    tmpd = os.path.join(WORK, "pa.%s.%d" % (prop, os.getpid()))
-    os.makedirs(tmpd, exist_ok=True)
-    p = run(["coqc", "-Q", "theories", "Mcap", "-Q", "properties", "McapProps", "-o", os.path.join(tmpd, "%s.vo" % prop),
-             pfile], cwd=COQ, check=False)
-    out = p.stdout.decode(errors="replace")
-    shutil.rmtree(tmpd, ignore_errors=True)
-    closed = len(re.findall(r"Closed under the global context", out))
-    axioms = re.findall(r"^Axioms:\n((?:.+\n)+)", out, re.M)
-    return (p.returncode == 0, closed, axioms), out
+    ok = True
+    closed = 0
+    axioms = []
+    outs = []
+    for pfile in files:
+        base = os.path.basename(pfile)[:-2]
+        tmpd = os.path.join(WORK, "pa.%s.%d" % (base, os.getpid()))
+        os.makedirs(tmpd, exist_ok=True)
+        p = run(["coqc", "-Q", "theories", "Mcap", "-Q", "properties", "McapProps", "-o", os.path.join(tmpd, "%s.vo" % base), pfile], cwd=COQ, check=False)
+        out = p.stdout.decode(errors="replace")
+        shutil.rmtree(tmpd, ignore_errors=True)
+        ok = ok and p.returncode == 0
+        closed += len(re.findall(r"Closed under the global context", out))
+        axioms += re.findall(r"^Axioms:\n((?:.+\n)+)", out, re.M)
+        outs.append(out)
+    return (ok, closed, axioms), "\n".join(outs)
 
 
 FORBIDDEN = re.compile(r"\b(Admitted|admit|Axiom|Parameter|Conjecture|Admit Obligations|Unset Guard|bypass_check|Unset Positivity|Unset Universe)\b")
